@@ -343,3 +343,50 @@ def test_c09_regions_stay_protected_on_a_page_with_very_deep_braces():
 def test_c09_encoding_and_padding_functions_leave_no_marker_debris(call):
     txt = _text(_parse("before " + call + " after"))
     assert "UNIQ" not in txt and "\x7f" not in txt and "QINU" not in txt
+
+
+# ---------------------------------------------------------------- fixes of wave 8
+@pytest.mark.parametrize("tag,body", [("source", "''a'' [[b]]"), ("pre", "x ''a''"), ("syntaxhighlight", "if (a) {{b}}")])
+def test_c09_function_form_of_a_tag_keeps_its_nowiki_protected_body(tag, body):
+    assert body in _text(_parse("S0 {{#tag:%s|<nowiki>%s</nowiki>}} S1" % (tag, body)))
+
+
+def test_c18_outcome_counters_survive_a_restart():
+    import pickle
+    from qs import jobs
+    wq = jobs.workq()
+    jid = wq.push("a")
+    wq.killjobs([jid])
+    before = wq.getstats()["channel2stat"]
+    wq2 = pickle.loads(pickle.dumps(wq, 2))
+    assert wq2.getstats()["channel2stat"] == before and before["a"]["killed"] == 1
+
+
+def test_c09_regions_nested_in_a_reference_are_restored_without_a_wiki_database():
+    from mwlib.parser.refine import uparser
+    t = uparser.parse_string(title="T", raw="x<ref><nowiki>''a''</nowiki></ref>y", wikidb=None, lang="en")
+    assert "''a''" in _text(t) and "UNIQ" not in _text(t)
+
+
+def test_c09_syntaxhighlight_body_with_a_source_closing_tag_stays_opaque():
+    t = _parse("<syntaxhighlight lang=python>a </source> ''b'' [[c]]</syntaxhighlight>")
+    assert "a </source> ''b'' [[c]]" in _text(t)
+    assert not [n for n in t.allchildren() if n.__class__.__name__ in ("Style", "ArticleLink")]
+
+
+def test_c09_displaytitle_with_a_protected_region_is_plain_text():
+    t = _parse("{{DISPLAYTITLE:<nowiki>''x''</nowiki>}}text")
+    assert t.caption == "''x''"
+
+
+def test_c05_list_in_the_caption_of_a_dissolved_table_keeps_its_items_in_the_list():
+    t, errs = _clean(("intro " * 60) + '\n\n<table id="mp-upper"><caption><ul><li>a</li><li>b</li></ul></caption><tr><td>x</td><td>y</td></tr></table>\n')
+    for item in [n for n in t.allchildren() if n.__class__.__name__ == "Item"]:
+        assert item.parent.__class__.__name__ == "ItemList"
+
+
+def test_c05_wide_table_in_a_caption_keeps_its_rows_in_a_table():
+    wide = "<table><tr>" + "".join("<td>c%d</td>" % i for i in range(17)) + "</tr></table>"
+    t, errs = _clean(("intro " * 60) + "\n\n<table><caption>cap " + wide + "</caption><tr><td>x</td></tr></table>\n")
+    for row in [n for n in t.allchildren() if n.__class__.__name__ == "Row"]:
+        assert row.parent.__class__.__name__ == "Table"
